@@ -5,6 +5,7 @@ import (
 	"encoding/json"
 	"fmt"
 	"io"
+	"strings"
 
 	"github.com/buger/jsonparser"
 
@@ -149,6 +150,8 @@ func (d *Document) writeJSONValue(buf *bytes.Buffer, value Value) error {
 	case ValueKindString:
 		if d.StringValueIsBlockString(value.Ref) {
 			content := d.BlockStringValueContentString(value.Ref)
+			// \""" is the only escape sequence of a block string
+			content = strings.ReplaceAll(content, `\"""`, `"""`)
 
 			enc := json.NewEncoder(buf)
 			enc.SetEscapeHTML(false)
